@@ -76,7 +76,8 @@ func paramNamed(cc *ssa.CallCommon, name string) int {
 func runC17(c *Ctx) {
 	p := c.Progs["mod"]
 	c.Rule("C17.A", "every store access of an agent endpoint is dominated by a successful backend check", 9)
-	c.Rule("C17.B", "the backend ID used is the validated one; the check itself is sound", 13)
+	c.Rule("C17.B", "the backend ID used is the validated one; the check itself is sound", 14)
+	ruleSentinelComparedRaw(c, p, "C17.B", "app", "app/store", "app/cache")
 	c.Rule("C17.C", "401 and nothing else on a failed check; no answer before the check", 6)
 	c.Rule("C17.D", "admin gate", 5)
 	c.Rule("C17.E", "end users only reach their own or shared backends", 7)
@@ -534,6 +535,19 @@ func c17Sibling(c *Ctx, p *Prog, rule string) {
 		m := iface.Method(k)
 		fn := p.Func("app/cache.(*cachingStore)." + objName(m))
 		if fn == nil {
+			// promoted from the embedded backing store: the purest form of delegation (same
+			// receiver, same arguments, no code in between) — only for the methods that must be pure
+			promoted := false
+			for k2 := 0; k2 < st.NumFields(); k2++ {
+				f := st.Field(k2)
+				if f.Embedded() && objName(f) == "BackingStore" && types.Identical(f.Type().Underlying(), iface) {
+					promoted = true
+				}
+			}
+			if promoted && pure[objName(m)] {
+				c.OK(rule, "cachingStore."+objName(m), p, obj.Pos(), "promoted from the embedded backing store: delegation with the caller's own arguments by construction")
+				continue
+			}
 			c.Bad(rule, "cachingStore."+objName(m), p, 0, "method missing")
 			continue
 		}
